@@ -1,6 +1,7 @@
 package transpiler
 
 import (
+	"fmt"
 	"github.com/metrico/qryn/reader/logql/logql_transpiler_v2/shared"
 	"github.com/metrico/qryn/reader/prof/parser"
 	shared2 "github.com/metrico/qryn/reader/prof/shared"
@@ -82,9 +83,15 @@ func PlanSeries(scripts []*parser.Script, labelNames []string) (shared.SQLReques
 	fpPlanners := streamSelectorPlanners(scripts)
 	planners := make([]shared.SQLRequestPlanner, len(fpPlanners))
 	for i, fpPlanner := range fpPlanners {
+		fpAlias := "fp"
+		if len(fpPlanners) > 1 {
+			// the members of a UNION ALL share one WITH list: each needs its own fingerprints alias
+			fpAlias = fmt.Sprintf("fp_%d", i)
+		}
 		planners[i] = &TimeSeriesSelectPlanner{
 			Fp:        fpPlanner,
 			Selectors: scripts[i].Selectors,
+			FpAlias:   fpAlias,
 		}
 	}
 	var planner shared.SQLRequestPlanner
